@@ -340,6 +340,16 @@ def install_spec_builtins(ip):
         return st[a[0]]
     B["path_state"] = Builtin("path_state", _path_state)
 
+    def _undecorated(ip, a, k):
+        """the raw function of a (decorated) method: undecorated(cls, 'name')"""
+        cls, name = a
+        for c in ip.mro(cls):
+            if hasattr(c, "methods") and name in c.methods:
+                return FuncVal(c.methods[name], c.module, None, c.qual + "." + name, c)
+        raise Unsupported(f"no method {name}")
+    from .values import FuncVal
+    B["undecorated"] = Builtin("undecorated", _undecorated)
+
     B["resolve_class"] = Builtin("resolve_class", lambda ip, a, k: ip.resolve_class(a[0]))
     B["resolve_module"] = Builtin("resolve_module", lambda ip, a, k: ip.src.load_path(a[0]))
 
